@@ -55,8 +55,13 @@ Step(t, m, e) ==
          IN [t EXCEPT !.viol = @ \cup (IF redirected THEN {}
                                        ELSE IF own = {} THEN {<<"C04", e.c, e.i, "request-for-unowned-slot-forwarded">>}
                                        ELSE IF ~okNode THEN {<<"C04", e.c, e.i, "request-at-wrong-node">>} ELSE {})
-                                  \cup (IF hsOK THEN {} ELSE {<<"C04", e.c, e.i, "handshake-missing-or-wrong">>}),
-                      !.reads = IF isRead /\ own # {} THEN Put(@, key, At(t.reads, key, 0) + 1) ELSE @]
+                                  \cup (IF hsOK THEN {} ELSE {<<"C04", e.c, e.i, "handshake-missing-or-wrong">>})]
+    \* C20 counts the reads a node actually serves: answers that are not redirects
+    [] e.ev = "answer" /\ e.fid # "" /\ e.kind \notin {"moved", "ask"} /\ <<e.c, e.i>> \in DOMAIN t.slotOf /\ t.loaded /\ ReadCmd(e.k) ->
+         LET slot == t.slotOf[<<e.c, e.i>>][e.toks[1].j + 1]
+             own == Owner(t.table, slot)
+             key == <<e.n, IF own # {} THEN (CHOOSE o \in own : TRUE).master ELSE "">>
+         IN [t EXCEPT !.reads = IF own # {} THEN Put(@, key, At(t.reads, key, 0) + 1) ELSE @]
     [] e.ev = "got" /\ e.rep.t = "perr" /\ e.rep.txt = "unknown slot" /\ t.loaded ->
          LET id == <<e.c, Len(Got(m, e.c)) + 1>> IN
          IF id \in DOMAIN t.slotOf /\ \A k \in DOMAIN t.slotOf[id] : Owner(t.table, t.slotOf[id][k]) # {}
